@@ -3,8 +3,11 @@ package props
 
 import (
 	"sort"
+	"strings"
 
 	"bifrostverify/an"
+
+	"golang.org/x/tools/go/ssa"
 )
 
 // Def describes one property check.
@@ -44,4 +47,42 @@ var commonAssumptions = []string{
 	"go/packages + go/types + go/ssa (x/tools v0.50.0) faithfully represent the program the go toolchain builds for linux/amd64 without build tags",
 	"facts are nil/bool/order relations on SSA values along explored paths; no alias analysis beyond SSA def-use, phi resolution and captured single-variable cells",
 	"standard library and third-party callees behave as documented (listed in coverage.trusted_base)",
+}
+
+// thoroughCallers (thorough tier): every repository caller of the given verifier/decoder uses its value result only
+// on paths where the returned error is nil. Callers inside the property's surface (the packages named) fail the check;
+// all other callers are reported as non-failing cross-reference notes (DESIGN §2: breadth never leaves the property).
+func thoroughCallers(c *an.Check, what string, valIdx int, surface []string, callees ...an.Callee) {
+	if c.Tier != "thorough" {
+		return
+	}
+	p := c.P
+	var core, other []*ssa.Function
+	for _, fn := range p.AllRepoFuncs() {
+		rel := strings.TrimPrefix(fn.Pkg.Pkg.Path(), an.Mod+"/")
+		in := false
+		for _, sfc := range surface {
+			if rel == sfc || strings.HasPrefix(rel, sfc+"/") {
+				in = true
+			}
+		}
+		if in {
+			core = append(core, fn)
+		} else {
+			other = append(other, fn)
+		}
+	}
+	total, notes := 0, 0
+	for _, cal := range callees {
+		total += c.UsesGuarded("USEGUARD", what+": result of "+cal.String()+" used only when err==nil", cal, valIdx, core, nil)
+		sub := an.NewCheck(c.Prop, c.Tier, p)
+		total += sub.UsesGuarded("USEGUARD", what, cal, valIdx, other, nil)
+		for _, o := range sub.Obls {
+			if o.Status != an.Discharged {
+				notes++
+				c.Note("cross-reference (outside the property's surface): %s %s — %s", o.Func, o.Pos, o.Detail)
+			}
+		}
+	}
+	c.Note("thorough: %d call sites of %s checked for use-before-error-check (%d cross-reference notes)", total, what, notes)
 }
